@@ -11,6 +11,7 @@ import (
 	"flag"
 	"fmt"
 	"os"
+	"os/exec"
 	"path/filepath"
 	"sort"
 	"strings"
@@ -232,6 +233,9 @@ func runCheck(repo, prop, tier, fnFilter, outDir string, noReplay, verbose bool)
 	}
 	solveAll(ts, out, timeout, cross, 16)
 	rep := buildReport(e, prop, tier, ts, trusted, out, noReplay, fnFilter == "")
+	if tier == "thorough" && fnFilter == "" && os.Getenv("NSQVC_NO_CANARIES") == "" {
+		rep.Canaries = runCanaries(prop, repo)
+	}
 	rep.WallS = time.Since(start).Seconds()
 	rep.print(verbose)
 	if fnFilter == "" {
@@ -247,4 +251,80 @@ func runCheck(repo, prop, tier, fnFilter, outDir string, noReplay, verbose bool)
 		return 2
 	}
 	return 0
+}
+
+// runCanaries (thorough tier): every confirmed seeded change of this property under /verif/seeded is
+// applied to a scratch copy of the repository (removed afterwards) and must make the check fail.
+// The results are recorded in the evidence; they do not change the verdict on /repo itself.
+func runCanaries(prop, repo string) []map[string]interface{} {
+	var out []map[string]interface{}
+	dirs, _ := filepath.Glob(filepath.Join(verifDir, "seeded", "*"))
+	sort.Strings(dirs)
+	for _, d := range dirs {
+		meta, err := os.ReadFile(filepath.Join(d, "meta.json"))
+		if err != nil {
+			continue
+		}
+		var m map[string]interface{}
+		json.Unmarshal(meta, &m)
+		if m["property"] != prop {
+			continue
+		}
+		res := map[string]interface{}{"seed": filepath.Base(d)}
+		scratch, err := os.MkdirTemp("", "nsqvc-canary")
+		if err != nil {
+			continue
+		}
+		func() {
+			defer os.RemoveAll(scratch)
+			if o, err := exec.Command("rsync", "-a", "--exclude", ".git", repo+"/", scratch+"/").CombinedOutput(); err != nil {
+				res["error"] = "copy failed: " + string(o)
+				return
+			}
+			ap := exec.Command("patch", "-p1", "-s", "-i", filepath.Join(d, "patch.diff"))
+			ap.Dir = scratch
+			if o, err := ap.CombinedOutput(); err != nil {
+				res["error"] = "patch does not apply to the current tree: " + strings.TrimSpace(string(o))
+				return
+			}
+			e, err := setup(scratch)
+			if err != nil {
+				res["detected"] = true
+				res["how"] = "engine fails closed: " + err.Error()
+				return
+			}
+			var ts []*fnTrans
+			for _, fc := range e.contracts.Funcs {
+				if !hasProp(fc.Props, prop) || fc.Trusted {
+					continue
+				}
+				t, err := e.translate(fc)
+				if err != nil {
+					res["detected"] = true
+					res["how"] = "engine fails closed: " + err.Error()
+					return
+				}
+				ts = append(ts, t)
+			}
+			if lt := e.lemmaTrans(prop); lt != nil {
+				ts = append(ts, lt)
+			}
+			solveAll(ts, filepath.Join(scratch, ".out"), 25*time.Second, false, 16)
+			var failed []string
+			for _, t := range ts {
+				for _, o := range t.obls {
+					if o.Kind != "cover" && o.Result != "unsat" {
+						failed = append(failed, o.Name+" ("+o.Result+")")
+					}
+				}
+			}
+			res["detected"] = len(failed) > 0
+			if len(failed) > 3 {
+				failed = append(failed[:3], fmt.Sprintf("... %d more", len(failed)-3))
+			}
+			res["failed_obligations"] = failed
+		}()
+		out = append(out, res)
+	}
+	return out
 }
